@@ -1,6 +1,541 @@
-//! C08 — monitor not built yet.
-use crate::core::Ctx;
+//! C08 — secret-key locking: the right password restores the key, nothing else does.
+//!
+//! Oracles: (L) library lock -> {in-memory, serialised+parsed} unlock == original, reference unlock
+//! of the library's bytes == original material; (W) reference-locked wire keys of every legal
+//! usage/S2K/cipher/AEAD combination unlock in the library to the original key; (N) negatives —
+//! wrong passwords and every single-bit flip of the secret part (and of the public part for AEAD
+//! protection): `library accepts => reference accepts` (the reference applies exactly the RFC
+//! checks, so an inherent 16-bit checksum collision is accepted by both and is not reported).
+
+use pgp::composed::SignedSecretKey;
+use pgp::crypto::aead::AeadAlgorithm;
+use pgp::crypto::hash::HashAlgorithm;
+use pgp::crypto::sym::SymmetricKeyAlgorithm;
+use pgp::packet::{PacketHeader, SecretKey, SecretSubkey};
+use pgp::ser::Serialize;
+use pgp::types::{KeyDetails, Password, PlainSecretParams, S2kParams, StringToKey, Tag};
+use rand::{Rng, RngCore};
+use serde_json::json;
+
+use crate::core::{describe_case, hexs, Ctx};
+use crate::rfc::key::{RefProtection, RefPub, RefSecret};
+use crate::rfc::sym::{aead_nonce_len, block_size, RefS2k};
+use crate::zoo::{self, Alg, Spec};
+
+/// A secret key packet under test: primary (tag 5) or subkey (tag 7)
+#[derive(Clone)]
+enum Sk {
+    P(SecretKey),
+    S(SecretSubkey),
+}
+
+impl Sk {
+    fn tag(&self) -> u8 {
+        match self {
+            Sk::P(_) => 5,
+            Sk::S(_) => 7,
+        }
+    }
+    fn body(&self) -> Vec<u8> {
+        match self {
+            Sk::P(k) => k.to_bytes().expect("serialise"),
+            Sk::S(k) => k.to_bytes().expect("serialise"),
+        }
+    }
+    fn parse(tag: u8, body: &[u8]) -> pgp::errors::Result<Sk> {
+        if tag == 5 {
+            SecretKey::try_from_reader(PacketHeader::new_fixed(Tag::SecretKey, body.len() as u32), body).map(Sk::P)
+        } else {
+            SecretSubkey::try_from_reader(PacketHeader::new_fixed(Tag::SecretSubkey, body.len() as u32), body).map(Sk::S)
+        }
+    }
+    fn lock(&mut self, pw: &Password, p: S2kParams) -> pgp::errors::Result<()> {
+        match self {
+            Sk::P(k) => k.set_password_with_s2k(pw, p),
+            Sk::S(k) => k.set_password_with_s2k(pw, p),
+        }
+    }
+    fn remove(&mut self, pw: &Password) -> pgp::errors::Result<()> {
+        match self {
+            Sk::P(k) => k.remove_password(pw),
+            Sk::S(k) => k.remove_password(pw),
+        }
+    }
+    fn unlock(&self, pw: &Password) -> pgp::errors::Result<PlainSecretParams> {
+        match self {
+            Sk::P(k) => k.unlock(pw, |_, p| Ok(p.clone()))?,
+            Sk::S(k) => k.unlock(pw, |_, p| Ok(p.clone()))?,
+        }
+    }
+    fn eq(&self, o: &Sk) -> bool {
+        match (self, o) {
+            (Sk::P(a), Sk::P(b)) => a == b,
+            (Sk::S(a), Sk::S(b)) => a == b,
+            _ => false,
+        }
+    }
+    fn version(&self) -> u8 {
+        match self {
+            Sk::P(k) => k.version().into(),
+            Sk::S(k) => k.version().into(),
+        }
+    }
+    fn alg_name(&self) -> String {
+        match self {
+            Sk::P(k) => format!("{:?}", k.algorithm()),
+            Sk::S(k) => format!("{:?}", k.algorithm()),
+        }
+    }
+}
+
+fn key_zoo(ctx: &Ctx) -> Vec<(String, Sk)> {
+    let mut specs = vec![
+        Spec::simple(false, Alg::Ed25519Legacy, Some(Alg::EcdhCv25519)),
+        Spec::simple(false, Alg::EcdsaP256, Some(Alg::EcdhP256)),
+        Spec::simple(true, Alg::Ed25519, Some(Alg::X25519)),
+        Spec::simple(true, Alg::Ed448, Some(Alg::X448)),
+        Spec::simple(false, Alg::EcdsaP521, Some(Alg::EcdhP384)),
+        Spec::simple(true, Alg::EcdsaP384, Some(Alg::EcdhP521)),
+        Spec::simple(false, Alg::EcdsaK256, None),
+        Spec::simple(false, Alg::Rsa2048, Some(Alg::Rsa2048)),
+        Spec::simple(true, Alg::Rsa2048, None),
+    ];
+    if !ctx.quick() {
+        specs.push(Spec::simple(false, Alg::Dsa2048, None));
+        specs.push(Spec::simple(false, Alg::Ed25519, Some(Alg::X25519)));
+    }
+    let mut out = vec![];
+    for s in specs {
+        let k: SignedSecretKey = zoo::key(&s, 1);
+        out.push((format!("{}/primary", s.name()), Sk::P(k.primary_key.clone())));
+        for sub in &k.secret_subkeys {
+            out.push((format!("{}/subkey", s.name()), Sk::S(sub.key.clone())));
+        }
+    }
+    out
+}
+
+#[derive(Clone, Debug)]
+struct Prot {
+    usage: u8, // 253, 254, 255 or legacy cipher id
+    cipher: u8,
+    aead: u8,
+    s2k: RefS2k,
+}
+
+fn to_lib_s2k(s: &RefS2k) -> StringToKey {
+    match s {
+        RefS2k::Simple { hash } => StringToKey::Simple { hash_alg: HashAlgorithm::from(*hash) },
+        RefS2k::Salted { hash, salt } => StringToKey::Salted { hash_alg: HashAlgorithm::from(*hash), salt: *salt },
+        RefS2k::Iterated { hash, salt, count } => StringToKey::IteratedAndSalted { hash_alg: HashAlgorithm::from(*hash), salt: *salt, count: *count },
+        RefS2k::Argon2 { salt, t, p, m } => StringToKey::Argon2 { salt: *salt, t: *t, p: *p, m_enc: *m },
+    }
+}
+
+fn s2k_kind(s: &RefS2k) -> &'static str {
+    match s {
+        RefS2k::Simple { .. } => "simple",
+        RefS2k::Salted { .. } => "salted",
+        RefS2k::Iterated { .. } => "iterated",
+        RefS2k::Argon2 { .. } => "argon2",
+    }
+}
+
+fn passwords(rng: &mut impl Rng) -> Vec<Vec<u8>> {
+    let mut long = vec![0u8; 200];
+    rng.fill_bytes(&mut long);
+    vec![
+        b"".to_vec(),
+        b"pw".to_vec(),
+        b"correct horse battery staple".to_vec(),
+        vec![0xFF, 0xFE, 0x00, 0x80, b'x'],
+        long,
+    ]
+}
+
+fn wrong_passwords(pw: &[u8]) -> Vec<Vec<u8>> {
+    let mut v: Vec<Vec<u8>> = vec![];
+    if !pw.is_empty() {
+        v.push(vec![]);
+        v.push(pw[..pw.len() - 1].to_vec());
+        let mut c = pw.to_vec();
+        c[0] ^= 0x20;
+        v.push(c);
+        let mut c = pw.to_vec();
+        let l = c.len() - 1;
+        c[l] ^= 1;
+        v.push(c);
+    }
+    let mut c = pw.to_vec();
+    c.push(0);
+    v.push(c);
+    let mut c = pw.to_vec();
+    c.push(b' ');
+    v.push(c);
+    let mut c = pw.to_vec();
+    c.insert(0, b' ');
+    v.push(c);
+    v.push(b"wrong".to_vec());
+    v.push(vec![0xC3, 0x28]);
+    v.push(vec![b'a'; 300]);
+    v.push(pw.iter().rev().cloned().chain(std::iter::once(b'x')).collect());
+    v.push([pw, pw, b"!"].concat());
+    v
+}
+
+/// raw secret material (no checksum) of an unprotected key body
+fn raw_material(body: &[u8]) -> Option<(RefPub, Vec<u8>)> {
+    let rs = RefSecret::parse(body)?;
+    if rs.protection != RefProtection::None {
+        return None;
+    }
+    let m = rs.unlock(5, b"")?.ok()?;
+    Some((rs.public, m))
+}
+
+fn ref_protection(p: &Prot, rng: &mut impl Rng) -> Option<RefProtection> {
+    Some(match p.usage {
+        253 => {
+            let mut nonce = vec![0u8; aead_nonce_len(p.aead)?];
+            rng.fill_bytes(&mut nonce);
+            RefProtection::Aead { cipher: p.cipher, aead: p.aead, s2k: p.s2k.clone(), nonce }
+        }
+        254 | 255 => {
+            let mut iv = vec![0u8; block_size(p.cipher)?];
+            rng.fill_bytes(&mut iv);
+            if p.usage == 254 {
+                RefProtection::Cfb { cipher: p.cipher, s2k: p.s2k.clone(), iv }
+            } else {
+                RefProtection::MalleableCfb { cipher: p.cipher, s2k: p.s2k.clone(), iv }
+            }
+        }
+        c => {
+            let mut iv = vec![0u8; block_size(c)?];
+            rng.fill_bytes(&mut iv);
+            RefProtection::LegacyCipher { cipher: c, iv }
+        }
+    })
+}
+
+fn lib_params(p: &Prot, rp: &RefProtection) -> Option<S2kParams> {
+    Some(match rp {
+        RefProtection::Aead { nonce, .. } => S2kParams::Aead {
+            sym_alg: SymmetricKeyAlgorithm::from(p.cipher),
+            aead_mode: AeadAlgorithm::from(p.aead),
+            s2k: to_lib_s2k(&p.s2k),
+            nonce: nonce.clone().into(),
+        },
+        RefProtection::Cfb { iv, .. } => S2kParams::Cfb {
+            sym_alg: SymmetricKeyAlgorithm::from(p.cipher),
+            s2k: to_lib_s2k(&p.s2k),
+            iv: iv.clone().into(),
+        },
+        _ => return None,
+    })
+}
+
+/// Negative trials on a serialised locked key: `library accepts => reference accepts`.
+#[allow(clippy::too_many_arguments)]
+fn negatives(ctx: &mut Ctx, label: &str, tag: u8, locked_body: &[u8], pw: &[u8], p: &Prot, flips_step: usize, replay: &serde_json::Value) {
+    // wrong passwords
+    for w in wrong_passwords(pw) {
+        let Ok(k) = Sk::parse(tag, locked_body) else { return };
+        let r = ctx.guarded("C08/neg", || replay.clone(), || k.unlock(&Password::from(&w[..])));
+        ctx.eval();
+        ctx.tally("neg.wrong_password", 1);
+        if let Some(Ok(_)) = r {
+            let refok = RefSecret::parse(locked_body).and_then(|r| r.unlock(tag, &w)).map(|r| r.is_ok()).unwrap_or(false);
+            if refok {
+                ctx.tally("neg.inherent_collision", 1);
+            } else {
+                ctx.violation(
+                    format!("C08/wrong-password-accepted/usage-{}", usage_class(p.usage)),
+                    format!("{label}: unlock with a wrong password returned Ok (usage {}, s2k {})", p.usage, s2k_kind(&p.s2k)),
+                    replay.clone(),
+                );
+            }
+        }
+    }
+    // bit flips
+    let Some((rp, publen)) = RefPub::parse_prefix(locked_body) else { return };
+    let _ = rp;
+    let start = if p.usage == 253 { 0 } else { publen };
+    let mut pos = start * 8;
+    let end = locked_body.len() * 8;
+    let pwd = Password::from(pw);
+    while pos < end {
+        let mut b = locked_body.to_vec();
+        b[pos / 8] ^= 1 << (pos % 8);
+        let region = if pos / 8 < publen { "public" } else { "secret" };
+        let mut normalised_away = false;
+        let r = ctx.guarded("C08/neg", || json!({"base": replay, "flip_bit": pos}), || match Sk::parse(tag, &b) {
+            Ok(k) => {
+                // a flip that the parser normalises away (the parsed value is the original key)
+                normalised_away = k.body() == locked_body;
+                k.unlock(&pwd).is_ok()
+            }
+            Err(_) => false,
+        });
+        ctx.eval();
+        ctx.tally(&format!("neg.flip.{region}"), 1);
+        if r == Some(true) {
+            let refok = RefSecret::parse(&b).and_then(|r| r.unlock(tag, pw)).map(|r| r.is_ok()).unwrap_or(false);
+            if normalised_away {
+                ctx.tally("neg.flip.normalised_away_by_parser", 1);
+            } else if refok {
+                // either an inherent 16-bit collision or a bit neither implementation binds
+                ctx.tally("neg.flip.accepted_by_both", 1);
+            } else {
+                ctx.violation(
+                    format!("C08/tampered-key-unlocks/usage-{}/{region}", usage_class(p.usage)),
+                    format!("{label}: after flipping bit {pos} (byte {} of {}, public part {publen} bytes) unlock with the right password returned Ok", pos / 8, locked_body.len()),
+                    json!({"base": replay, "flip_bit": pos, "body": hexs(&b)}),
+                );
+            }
+        }
+        pos += flips_step;
+    }
+}
+
+fn usage_class(u: u8) -> String {
+    match u {
+        253 | 254 | 255 => u.to_string(),
+        _ => "legacy".into(),
+    }
+}
 
 pub fn run(ctx: &mut Ctx) {
-    ctx.inconclusive("monitor not built yet");
+    let keys = key_zoo(ctx);
+    let quick = ctx.quick();
+
+    // protection grid
+    let salt8 = [0xA1u8, 2, 3, 4, 5, 6, 7, 0xB8];
+    let salt16 = [9u8; 16];
+    let mut grid: Vec<Prot> = vec![];
+    let cfb_ciphers: &[u8] = if quick { &[7, 9, 2, 3, 10, 12] } else { &[1, 2, 3, 4, 7, 8, 9, 10, 11, 12, 13] };
+    let hashes_strong: &[u8] = if quick { &[8, 10] } else { &[8, 9, 10, 11, 12, 14] };
+    for &c in cfb_ciphers {
+        for &h in hashes_strong {
+            for s2k in [
+                RefS2k::Salted { hash: h, salt: salt8 },
+                RefS2k::Iterated { hash: h, salt: salt8, count: 0 },
+                RefS2k::Iterated { hash: h, salt: salt8, count: 0x60 },
+                RefS2k::Simple { hash: h },
+            ] {
+                for usage in [254u8, 255] {
+                    grid.push(Prot { usage, cipher: c, aead: 0, s2k: s2k.clone() });
+                }
+            }
+        }
+        // weak hashes are still readable on v4
+        for &h in &[2u8, 1, 3] {
+            grid.push(Prot { usage: 254, cipher: c, aead: 0, s2k: RefS2k::Iterated { hash: h, salt: salt8, count: 16 } });
+            grid.push(Prot { usage: 255, cipher: c, aead: 0, s2k: RefS2k::Simple { hash: h } });
+        }
+    }
+    for &c in &[7u8, 8, 9] {
+        for &a in &[1u8, 2, 3] {
+            for s2k in [
+                RefS2k::Iterated { hash: 8, salt: salt8, count: 0 },
+                RefS2k::Iterated { hash: 10, salt: salt8, count: 0x42 },
+                RefS2k::Argon2 { salt: salt16, t: 1, p: 1, m: 6 },
+                RefS2k::Argon2 { salt: salt16, t: 2, p: 2, m: 7 },
+                RefS2k::Salted { hash: 8, salt: salt8 },
+                RefS2k::Simple { hash: 8 },
+            ] {
+                grid.push(Prot { usage: 253, cipher: c, aead: a, s2k });
+            }
+        }
+    }
+    for &c in &[1u8, 3, 4, 7, 11] {
+        grid.push(Prot { usage: c, cipher: c, aead: 0, s2k: RefS2k::Simple { hash: 1 } });
+    }
+    if !quick {
+        // full count sweep on one cipher
+        for count in 0..=255u8 {
+            if count & 0xF0 > 0x90 && count % 16 != 0 {
+                continue; // keep the expensive high counts sparse
+            }
+            grid.push(Prot { usage: 254, cipher: 7, aead: 0, s2k: RefS2k::Iterated { hash: 8, salt: salt8, count } });
+        }
+    }
+
+    for (ki, (kname, key)) in keys.iter().enumerate() {
+        let tag = key.tag();
+        let v6 = key.version() == 6;
+        let orig_body = key.body();
+        let Some((_pubref, material)) = raw_material(&orig_body) else {
+            ctx.inconclusive(format!("reference cannot parse unlocked key {kname}"));
+            continue;
+        };
+        let orig_plain = match key.unlock(&Password::empty()) {
+            Ok(p) => p,
+            Err(e) => {
+                ctx.inconclusive(format!("cannot read plain params of {kname}: {e}"));
+                continue;
+            }
+        };
+        let slow_key = kname.contains("Rsa") || kname.contains("Dsa");
+        for (gi, p) in grid.iter().enumerate() {
+            // ration: every key sees a slice of the grid; slow keys a thinner one
+            let stride = if slow_key { 9 } else if quick { 3 } else { 1 };
+            if (gi + ki) % stride != 0 {
+                continue;
+            }
+            if !ctx.mine() {
+                continue;
+            }
+            describe_case(&format!("{kname} usage {} cipher {} aead {} s2k {}", p.usage, p.cipher, p.aead, s2k_kind(&p.s2k)));
+            let mut rng = ctx.rng("grid", (ki * 10000 + gi) as u64);
+            let pws = passwords(&mut rng);
+            let pw = pws[(gi + ki) % pws.len()].clone();
+            let pwd = Password::from(&pw[..]);
+            let Some(rprot) = ref_protection(p, &mut rng) else { continue };
+            let replay = json!({"key": kname, "usage": p.usage, "cipher": p.cipher, "aead": p.aead, "s2k": format!("{:?}", p.s2k), "pw": hexs(&pw)});
+            let cls = format!("v{}-u{}-{}", key.version(), usage_class(p.usage), s2k_kind(&p.s2k));
+
+            // what the RFC (and the library's documented restrictions) allow
+            let weak = matches!(p.s2k, RefS2k::Simple { hash } | RefS2k::Salted { hash, .. } | RefS2k::Iterated { hash, .. } if matches!(hash, 1 | 2 | 3));
+            let legal_wire = if v6 {
+                matches!(p.usage, 253 | 254) && !weak && !matches!(p.s2k, RefS2k::Simple { .. })
+            } else {
+                true
+            };
+
+            // ---------------- (L) library lock
+            if let Some(lp) = lib_params(p, &rprot) {
+                let mut locked = key.clone();
+                let lr = ctx.guarded("C08/lock", || replay.clone(), || locked.lock(&pwd, lp));
+                ctx.eval();
+                match lr {
+                    None => {}
+                    Some(Err(e)) => {
+                        // documented refusals: weak hash, argon2 without AEAD, v6 restrictions
+                        ctx.tally("L.lock_refused", 1);
+                        if !weak && legal_wire && !matches!(p.s2k, RefS2k::Simple { .. }) && !(p.usage == 253 && matches!(p.s2k, RefS2k::Salted { .. })) {
+                            ctx.violation(
+                                format!("C08/lock-refused/{cls}"),
+                                format!("{kname}: set_password_with_s2k refused a legal parameter set: {e}"),
+                                replay.clone(),
+                            );
+                        }
+                    }
+                    Some(Ok(())) => {
+                        ctx.cover(&("L", kname, gi));
+                        ctx.seen("L.classes", cls.clone());
+                        // in-memory unlock
+                        match ctx.guarded("C08/unlock", || replay.clone(), || locked.unlock(&pwd)) {
+                            Some(Ok(pl)) if pl == orig_plain => {}
+                            Some(Ok(_)) => ctx.violation(format!("C08/L/unlock-different-material/{cls}"), format!("{kname}: lock->unlock returned different secret material"), replay.clone()),
+                            Some(Err(e)) => ctx.violation(format!("C08/L/unlock-failed/{cls}"), format!("{kname}: lock->unlock with the same password failed: {e}"), replay.clone()),
+                            None => {}
+                        }
+                        // serialise -> parse -> unlock / remove_password
+                        let body = locked.body();
+                        match Sk::parse(tag, &body) {
+                            Err(e) => ctx.violation(format!("C08/L/own-locked-key-rejected/{cls}"), format!("{kname}: serialised locked key does not parse: {e}"), replay.clone()),
+                            Ok(mut k2) => {
+                                ctx.eval();
+                                // (object equality incl. the stored packet header is C05's business)
+                                if k2.body() != body {
+                                    ctx.violation(format!("C08/L/reparse-reserialise-differs/{cls}"), format!("{kname}: parsed locked key serialises differently"), replay.clone());
+                                }
+                                match k2.unlock(&pwd) {
+                                    Ok(pl) if pl == orig_plain => {}
+                                    Ok(_) => ctx.violation(format!("C08/L/reparse-unlock-different-material/{cls}"), kname.to_string(), replay.clone()),
+                                    Err(e) => ctx.violation(format!("C08/L/reparse-unlock-failed/{cls}"), format!("{kname}: {e}"), replay.clone()),
+                                }
+                                if k2.remove(&pwd).is_ok() {
+                                    if k2.body() != orig_body {
+                                        ctx.violation(format!("C08/L/remove_password-differs/{cls}"), format!("{kname}: after remove_password the key serialises differently from the original"), replay.clone());
+                                    }
+                                } else {
+                                    ctx.violation(format!("C08/L/remove_password-failed/{cls}"), kname.to_string(), replay.clone());
+                                }
+                            }
+                        }
+                        // reference unlock of the library's bytes
+                        match RefSecret::parse(&body).and_then(|r| r.unlock(tag, &pw)) {
+                            Some(Ok(m)) if m == material => {}
+                            Some(Ok(_)) => ctx.violation(format!("C08/L/reference-unlocks-different-material/{cls}"), kname.to_string(), replay.clone()),
+                            Some(Err(())) => ctx.violation(
+                                format!("C08/L/reference-cannot-unlock/{cls}"),
+                                format!("{kname}: the RFC construction does not open the library's locked key (usage {}, cipher {}, aead {})", p.usage, p.cipher, p.aead),
+                                json!({"base": replay, "body": hexs(&body)}),
+                            ),
+                            None => ctx.inconclusive("reference cannot parse library locked key"),
+                        }
+                        // negatives
+                        let step = if quick { 7 } else if slow_key { 13 } else { 1 };
+                        if gi % (if quick { 4 } else { 2 }) == 0 || p.usage == 253 {
+                            negatives(ctx, kname, tag, &body, &pw, p, step, &replay);
+                        }
+                        if gi % 97 == 0 {
+                            ctx.sample(json!({"family": "L", "key": kname, "class": cls, "locked_body": hexs(&body), "password": hexs(&pw)}));
+                        }
+                    }
+                }
+            }
+
+            // ---------------- (W) reference-locked wire key
+            let Some((rpub, _)) = RefPub::parse_prefix(&orig_body) else { continue };
+            let Some(rs) = RefSecret::lock(&rpub, tag, rprot.clone(), &pw, &material) else {
+                ctx.inconclusive("reference cannot lock");
+                continue;
+            };
+            let wire = rs.encode();
+            let parsed = ctx.guarded("C08/W/parse", || json!({"base": replay, "wire": hexs(&wire)}), || Sk::parse(tag, &wire));
+            ctx.eval();
+            match parsed {
+                None => {}
+                Some(Err(e)) => {
+                    ctx.tally("W.parse_rejected", 1);
+                    if legal_wire {
+                        ctx.violation(format!("C08/W/legal-wire-key-rejected/{cls}"), format!("{kname}: {e}"), json!({"base": replay, "wire": hexs(&wire)}));
+                    }
+                }
+                Some(Ok(mut k)) => {
+                    ctx.cover(&("W", kname, gi));
+                    ctx.seen("W.classes", cls.clone());
+                    // usage octet must survive re-serialisation
+                    let again = k.body();
+                    if again != wire {
+                        ctx.violation(format!("C08/W/reserialise-differs/{cls}"), format!("{kname}: accepted wire key is written back differently (usage octet {} -> {:?})", p.usage, again.get(wire.len() - rs.data.len().min(wire.len())..).map(|_| again[orig_pub_len(&wire)])), json!({"base": replay, "wire": hexs(&wire), "again": hexs(&again)}));
+                    }
+                    let policy_refused = p.usage == 253 && !matches!(p.s2k, RefS2k::Iterated { .. } | RefS2k::Argon2 { .. });
+                    match ctx.guarded("C08/W/unlock", || json!({"base": replay, "wire": hexs(&wire)}), || k.unlock(&pwd)) {
+                        None => {}
+                        Some(Ok(pl)) => {
+                            if pl != orig_plain {
+                                ctx.violation(format!("C08/W/unlock-different-material/{cls}"), kname.to_string(), json!({"base": replay, "wire": hexs(&wire)}));
+                            } else if k.remove(&pwd).is_ok() && k.body() != orig_body {
+                                ctx.violation(format!("C08/W/remove_password-differs/{cls}"), kname.to_string(), json!({"base": replay, "wire": hexs(&wire)}));
+                            }
+                        }
+                        Some(Err(e)) => {
+                            if policy_refused || !legal_wire {
+                                ctx.tally("W.policy_refused", 1);
+                            } else {
+                                ctx.violation(
+                                    format!("C08/W/accepted-wire-key-does-not-unlock/{cls}"),
+                                    format!("{kname}: key with usage octet {} parses but does not unlock with its password: {e}", p.usage),
+                                    json!({"base": replay, "wire": hexs(&wire)}),
+                                );
+                            }
+                        }
+                    }
+                    if (p.usage == 255 || p.usage < 253) && gi % 3 == 0 {
+                        negatives(ctx, kname, tag, &wire, &pw, p, if quick { 5 } else { 1 }, &replay);
+                    }
+                    if gi % 101 == 0 {
+                        ctx.sample(json!({"family": "W", "key": kname, "class": cls, "wire": hexs(&wire), "password": hexs(&pw)}));
+                    }
+                }
+            }
+        }
+    }
+}
+
+fn orig_pub_len(body: &[u8]) -> usize {
+    RefPub::parse_prefix(body).map(|(_, n)| n).unwrap_or(0)
 }
